@@ -222,7 +222,7 @@ def run(ctx):
     r = ctx.prove(['Properties/C01.v', 'Properties/C01Compose.v'])
     rng = random.Random(ctx.seed)
     known_witnesses(ctx)
-    cat = blocks.catalogue(rng, ctx.tier)
+    cat = blocks.catalogue(rng, ctx.tier) + blocks.pair_catalogue(random.Random(ctx.seed * 31 + 77), ctx.tier)     # + two instances of one class per hierarchy (shared modules)
     n_rand = 24 if ctx.quick else 200
     batch, programs, bad, tie_only = [], 0, [], []
     comp_stats = {}
